@@ -15,8 +15,10 @@ TraceNext == /\ l <= Len(Traces[tid])
                        [] e.call = "recvfault" -> RecvFault(e.x)
                        [] e.call = "sendfault" -> SendFault(e.x)
                        [] OTHER -> FALSE
-                  /\ closed'["A"] = e.cA /\ closed'["B"] = e.cB
-                  /\ hooks'["A"] = e.hA /\ hooks'["B"] = e.hB
+                  \* a fault fires in the middle of whatever call is running: the flags logged with it are a half-way state
+                  /\ (e.call \notin {"recvfault", "sendfault"}) =>
+                        /\ closed'["A"] = e.cA /\ closed'["B"] = e.cB
+                        /\ hooks'["A"] = e.hA /\ hooks'["B"] = e.hB
              /\ l' = l + 1 /\ UNCHANGED tid
 TraceSpec == TraceInit /\ [][TraceNext]_<<vars, tid, l>>
 Progress == TLCSet(tid, IF TLCGet(tid) < l THEN l ELSE TLCGet(tid))
